@@ -334,6 +334,10 @@ def _bounded(ct, tier, seed):
         lw = L.wavelengths.get_wavelengths()
         pw = L.primary_wavelength
         try:
+            L.trace(0.0, 0.5, pw, 2, 'hexapolar')       # a lens that cannot be traced at all is not C12's subject
+        except Exception:
+            continue
+        try:
             # explicit field and wavelength lists that differ from the lens's own (primary wavelength included, other position)
             waves = [pw] + [w for w in lw if w != pw][:1]
             flds = [(0.0, 0.35), (0.0, 0.8)]
